@@ -306,6 +306,15 @@ def run_history(case, observe=True, full=False):
                 en = sim.enabled()
                 if en:
                     continue
+        if not en and case.get('complete_async_at_end') and sim.W.inflight:
+            for aid in sorted(sim.W.inflight):
+                sim.W.inflight.pop(aid, None)
+                sim.call(sim.rpc_clients.get_engine_client()
+                         .on_action_complete, aid,
+                         sim.ml_actions.Result(data='async-done'))
+            en = sim.enabled()
+            if en:
+                continue
         if not en:
             quiet = True
             break
